@@ -160,12 +160,17 @@ package analysis
 //@   pure
 //@   trusted pin=819705618629c3e0
 
-// the constant named nm of package pa makes the named type N an enum
-//@ pred enumConst(pa *packages.Package, nm string, N *types.Named) bool =
-//@      is(pa.Types.Scope().Lookup(nm), *types.Const)
-//@   && is(as(pa.Types.Scope().Lookup(nm), *types.Const).Type(), *types.Named)
-//@   && as(pa.Types.Scope().Lookup(nm), *types.Const).Type() == N
-//@   && !strings.Contains(fetchConstComment(pa, as(pa.Types.Scope().Lookup(nm), *types.Const)), IgnoreDeclComment)
+// the constant named nm of package pa makes the named type N an enum: N is a type of THAT package (C10: "its package
+// declares at least one typed constant of it"; a constant of a foreign type is neither a reason nor a member)
+//@ recfunc enumConstR(pa *packages.Package, tp *types.Package, nm string, N *types.Named) bool =
+//@      is(tp.Scope().Lookup(nm), *types.Const)
+//@   && is(as(tp.Scope().Lookup(nm), *types.Const).Type(), *types.Named)
+//@   && as(tp.Scope().Lookup(nm), *types.Const).Type() == N
+//@   && N.Obj().Pkg() == tp
+//@   && !strings.Contains(fetchConstComment(pa, as(tp.Scope().Lookup(nm), *types.Const)), IgnoreDeclComment)
+// (an axiomatised function of the package, its types.Package, the name and the type — no heap read inside —
+// so that quantified facts about it have a small trigger)
+//@ pred enumConst(pa *packages.Package, nm string, N *types.Named) bool = enumConstR(pa, pa.Types, nm, N)
 
 // member k of enum en is exactly the constant named nm, with its trailing comment
 //@ pred isMemberOf(pa *packages.Package, nm string, m EnumMember) bool =
@@ -177,6 +182,8 @@ package analysis
 //@   -- a named type is an enum exactly when the package declares a typed constant of it that is not opted out
 //@   ensures forall N *types.Named :: has(result, N) <==> (exists i int :: 0 <= i && i < len(pa.Types.Scope().Names()) && enumConst(pa, pa.Types.Scope().Names()[i], N))
 //@   ensures forall N *types.Named :: has(result, N) ==> result[N] != nil && result[N].name == N
+//@   ensures forall i int, N *types.Named :: 0 <= i && i < len(pa.Types.Scope().Names()) && enumConst(pa, pa.Types.Scope().Names()[i], N) ==> has(result, N)
+//@   ensures !isnil(result) && fresh(result)
 //@   -- every detected enum has been classified by setIsIota (whose contract says what the flag means)
 //@   ensures forall N *types.Named :: has(result, N) ==> ghost("iotaChecked", result[N]) == 1
 //@   -- loop 1 builds the member lists: all those constants (invariant 5) and nothing else (invariant 6), each
@@ -235,6 +242,8 @@ package analysis
 //@   -- ... each once, in name order; a union is never empty
 //@   ensures forall c *types.Named, k1, k2 int :: has(result, c) && 0 <= k1 && k1 < k2 && k2 < len(result[c]) ==> result[c][k1].Obj().Name() < result[c][k2].Obj().Name()
 //@   ensures forall c *types.Named :: has(result, c) ==> len(result[c]) > 0
+//@   ensures !isnil(result) && fresh(result)
+//@   ensures forall c *types.Named :: has(result, c) ==> is(c, *types.Named) && allocated(result[c])
 //@   loop candidates.1 index n
 //@   loop candidates.1 invariant forall c *types.Named :: has(out, c) ==> isItf(c) && (exists i int :: 0 <= i && i < n && candidates[i] == c) && !isnil(out[c]) && len(out[c]) > 0 && fresh(out[c]) && allocated(out[c])
 //@   loop candidates.1 invariant forall i int :: 0 <= i && i < n && isItf(candidates[i]) && (exists j int :: 0 <= j && j < len(candidates) && isMember(candidates[j], candidates[i])) ==> has(out, candidates[i])
@@ -358,18 +367,75 @@ package analysis
 //@   loop members.1 invariant isnil(un.Members) || (fresh(un.Members) && allocated(un.Members))
 
 
-// the walk over the import graph is a recursive closure (outside the verified subset): ASSUMED contract.
-// Keys are (non nil) named types, enums are real nodes. What the maps contain is the business of
-// fetchPkgEnums / fetchPkgUnions (C10, C11) and of the bounded harness of fetchEnumsAndUnions.
+// The walk over the import graph is a recursive closure: the literal has its own contract (fetchEnumsAndUnions$lit1,
+// verified like a function, its captured variables arbitrary) and every call of the closure variable — the one in
+// fetchEnumsAndUnions and the recursive one — is checked against that contract.
+// pkgsOK is the type invariant of what go/packages hands out in the mode LoadSources asks for (NeedTypes |
+// NeedImports | NeedDeps): a package has type information and its imports are packages. It is a PRECONDITION here
+// (established by unverified callers: cmd, tests), never an axiom.
+//@ pred pkgsOK(root *packages.Package) bool = root != nil && (forall q *packages.Package :: q != nil ==> q.Types != nil) && (forall q *packages.Package, k string :: has(q.Imports, k) ==> q.Imports[k] != nil)
+// what the two accumulators hold at every point of the walk: enums are real nodes, union keys are named types
+//@ pred accuOK(E enumsMap, U unionsMap) bool = (forall N *types.Named :: has(E, N) ==> E[N] != nil && E[N].name == N) && (forall N *types.Named :: has(U, N) ==> is(N, *types.Named) && allocated(U[N]) && len(U[N]) > 0) && (forall N *types.Named, k int :: has(U, N) && 0 <= k && k < len(U[N]) ==> U[N][k] != nil && isMember(U[N][k], N)) && (forall N *types.Named, k1, k2 int :: has(U, N) && 0 <= k1 && k1 < k2 && k2 < len(U[N]) ==> U[N][k1].Obj().Name() < U[N][k2].Obj().Name())
+
+// which imports are walked: a function of the package path and the selector (nothing is written)
+//@ func NewPkgSelector
+//@   props C10 C11
+//@   pure
+//@   requires root != nil
+//@ func PkgSelector.ignorePath
+//@   props C10 C11
+//@   pure
+//@ func PkgSelector.Ignore
+//@   props C10 C11
+//@   pure
+//@   requires pa != nil
+
+//@ func fetchEnumsAndUnions$lit1
+//@   props C10 C11
+//@   requires pkgsOK(p) && !isnil(outEnums) && !isnil(outUnions) && ref(outEnums) != ref(outUnions)
+//@   requires accuOK(outEnums, outUnions)
+//@   modifies keys(outEnums), keys(outUnions)
+//@   ensures accuOK(outEnums, outUnions)
+//@   -- nothing is ever removed ...
+//@   ensures forall N *types.Named :: old(has(outEnums, N)) ==> has(outEnums, N)
+//@   ensures forall N *types.Named :: old(has(outUnions, N)) ==> has(outUnions, N)
+//@   -- ... and every enum / union of the package itself is recorded (whatever the walk over its imports does afterwards)
+//@   ensures forall i int, N *types.Named :: 0 <= i && i < len(p.Types.Scope().Names()) && enumConst(p, p.Types.Scope().Names()[i], N) ==> has(outEnums, N)
+//@   ensures forall c *types.Named, i, j int :: 0 <= i && i < nameCount(p.Types.Scope()) && namedTypeAt(p, nameAt(p.Types.Scope(), i), c) && isItf(c) && 0 <= j && j < nameCount(p.Types.Scope()) && (exists m *types.Named :: namedTypeAt(p, nameAt(p.Types.Scope(), j), m) && isMember(m, c)) ==> has(outUnions, c)
+//@   loop fetchPkgEnums(p).1 visited doneE
+//@   loop fetchPkgEnums(p).1 coll pe
+//@   loop fetchPkgEnums(p).1 invariant forall N *types.Named :: has(pe, N) == before(has(pe, N)) && pe[N] == before(pe[N])
+//@   loop fetchPkgEnums(p).1 invariant accuOK(outEnums, outUnions)
+//@   loop fetchPkgEnums(p).1 invariant forall N *types.Named :: old(has(outEnums, N)) || doneE[N] ==> has(outEnums, N)
+//@   loop fetchPkgEnums(p).1 invariant forall N *types.Named :: old(has(outUnions, N)) ==> has(outUnions, N)
+//@   loop fetchPkgUnions(p).1 visited doneU
+//@   loop fetchPkgUnions(p).1 coll pu
+//@   loop fetchPkgUnions(p).1 invariant forall N *types.Named :: has(pu, N) == before(has(pu, N)) && pu[N] == before(pu[N])
+//@   loop fetchPkgUnions(p).1 invariant accuOK(outEnums, outUnions)
+//@   loop fetchPkgUnions(p).1 invariant forall N *types.Named :: old(has(outUnions, N)) || doneU[N] ==> has(outUnions, N)
+//@   loop fetchPkgUnions(p).1 invariant forall N *types.Named :: before(has(outEnums, N)) ==> has(outEnums, N)
+//@   loop fetchPkgUnions(p).1 invariant forall i int, N *types.Named :: 0 <= i && i < len(p.Types.Scope().Names()) && enumConst(p, p.Types.Scope().Names()[i], N) ==> has(outEnums, N)
+//@   loop p.Imports.1 invariant accuOK(outEnums, outUnions)
+//@   loop p.Imports.1 invariant forall i int, N *types.Named :: 0 <= i && i < len(p.Types.Scope().Names()) && enumConst(p, p.Types.Scope().Names()[i], N) ==> has(outEnums, N)
+//@   loop p.Imports.1 invariant forall N *types.Named :: before(has(outEnums, N)) ==> has(outEnums, N)
+//@   loop p.Imports.1 invariant forall N *types.Named :: before(has(outUnions, N)) ==> has(outUnions, N)
+
+// Enums are real nodes, union keys are named types; every enum and every union of the ROOT package is in the result.
+// (That the same holds for every package reached through the imports needs a reachability relation over a heap
+// field, which the spec language cannot state: bounded harness of fetchEnumsAndUnions, always run.)
 //@ func fetchEnumsAndUnions
-//@   trusted pin=861a43170c45d712
+//@   props C10 C11
+//@   requires pkgsOK(pa)
 //@   ensures forall N *types.Named :: has(result1, N) ==> result1[N] != nil
 //@   ensures forall N *types.Named :: has(result2, N) ==> is(N, *types.Named) && allocated(result2[N])
+//@   ensures forall i int, N *types.Named :: 0 <= i && i < len(pa.Types.Scope().Names()) && enumConst(pa, pa.Types.Scope().Names()[i], N) ==> has(result1, N)
+//@   ensures forall c *types.Named, i, j int :: 0 <= i && i < nameCount(pa.Types.Scope()) && namedTypeAt(pa, nameAt(pa.Types.Scope(), i), c) && isItf(c) && 0 <= j && j < nameCount(pa.Types.Scope()) && (exists m *types.Named :: namedTypeAt(pa, nameAt(pa.Types.Scope(), j), m) && isMember(m, c)) ==> has(result2, c)
 
 // every struct node of the table gets its Implements list from setImplements (whose contract says what it holds)
 //@ func (*Analysis).populateTypes
 //@   props C11 C12
 //@   requires an != nil
+//@   requires pkgsOK(pa)
 //@   modifies an.Types, F$github.com.benoitkugler.gomacro.analysis.Struct.Implements, G$implementsSet
 //@   ensures tableOK(an)
 //@   ensures forall t types.Type :: has(an.Types, t) && is(an.Types[t], *Struct) ==> ghost("implementsSet", an.Types[t]) == 1
@@ -403,6 +469,7 @@ package analysis
 
 //@ func NewAnalysisFromTypes
 //@   props C12
+//@   requires pkgsOK(pkg)
 //@   modifies F$github.com.benoitkugler.gomacro.analysis.Struct.Implements, G$implementsSet
 //@   ensures result != nil && result.Source == source && result.Pkg == pkg && tableOK(result)
 
@@ -410,6 +477,7 @@ package analysis
 //@ func NewAnalysisFromFile
 //@   props C12
 //@   requires pkg != nil && pkg.Types != nil && pkg.Fset != nil
+//@   requires pkgsOK(pkg)
 //@   modifies F$github.com.benoitkugler.gomacro.analysis.Struct.Implements, G$implementsSet
 //@   ensures result != nil
 //@   ensures forall i, j int :: 0 <= i && i < j && j < len(result.Source) && is(result.Source[i], *types.Named) && is(result.Source[j], *types.Named) ==> as(result.Source[i], *types.Named).Obj().Pos() <= as(result.Source[j], *types.Named).Obj().Pos()
